@@ -249,6 +249,8 @@ func main() {
 		runExhaust(ctx, w, *tier, tmp, *outDir, *only)
 	case "cli":
 		runCLI(ctx, w, *tier, tmp, *outDir, *only)
+	case "plan":
+		runPlan(ctx, w, *tier, *outDir, *only)
 	default:
 		fmt.Fprintln(os.Stderr, "unknown mode", *mode)
 		os.Exit(2)
